@@ -9,6 +9,8 @@ CONSTANTS
   Patience = 1
   HandlerKills = TRUE
   Profile = "free"
+  AliasDefaults = FALSE
+  ShutdownFirst = FALSE
 INVARIANT TypeOK
 INVARIANT Ref_Table
 INVARIANT Ref_Reply
